@@ -249,6 +249,11 @@ func fmtPoint(p data.Point) string {
 
 // comparePoints returns "" if got equals exactly the model's newest points.
 func comparePoints(what string, got data.Points, want map[PKey]data.Point) string {
+	return comparePointsOpt(what, got, want, false)
+}
+
+// comparePointsOpt can ignore the origin field (a point forwarded between instances carries the forwarder as origin).
+func comparePointsOpt(what string, got data.Points, want map[PKey]data.Point, ignoreOrigin bool) string {
 	seen := map[PKey]bool{}
 	for _, g := range got {
 		k := PKey{g.Type, normKey(g.Key)}
@@ -262,6 +267,9 @@ func comparePoints(what string, got data.Points, want map[PKey]data.Point) strin
 		w, ok := want[k]
 		if !ok {
 			return fmt.Sprintf("%s: unexpected point %s", what, fmtPoint(g))
+		}
+		if ignoreOrigin {
+			g.Origin, w.Origin = "", ""
 		}
 		if !pointEq(g, w) {
 			return fmt.Sprintf("%s: identity (%q,%q) reads %s, newest delivered is %s", what, k.Type, k.Key, fmtPoint(g), fmtPoint(w))
